@@ -161,7 +161,7 @@ func buildCorpusScenario(rng *rand.Rand, script []scriptEv, n int, maxOrders int
 // scenarioFromDag: a finished static DAG on a reference node (creation order), on one node per
 // delayed order and on `randomOrders` nodes fed in random topological orders.
 func scenarioFromDag(rng *rand.Rand, d *dag, n int, maxOrders, randomOrders int, id string, holdBack ...*gEvent) *scenario {
-	o := genOpts{n0: n, steps: len(d.events)}
+	o := genOpts{n0: n, steps: len(d.events), extra: len(d.parts) - n}
 	sc := &scenario{opts: o, d: d, heldBack: len(holdBack)}
 	c := &Case{ID: id}
 	c.Op("CASE")
@@ -195,7 +195,9 @@ func scenarioFromDag(rng *rand.Rand, d *dag, n int, maxOrders, randomOrders int,
 	}
 	for _, nd := range sc.nodes {
 		nd.dumpAll(c)
-		nd.dumpDag(c)
+		if nd.retro == 0 {
+			nd.dumpDag(c) // the declarative model takes the validator-set table as given for every round
+		}
 	}
 	// frames of the reference node (every processed round still cached)
 	ref.dumpFrames(c, ref.processedRounds())
